@@ -56,7 +56,7 @@ func init() {
 		Gen:         c05Gen,
 		Race:        func(string) bool { return true },
 		InChild:     func(string) int { return 2 },
-		CaseTimeout: 150 * time.Second,
+		CaseTimeout: 460 * time.Second,
 		ChildSetup:  func() { installPointHooks(true) },
 		Require: func(tier string) map[string]int64 {
 			return map[string]int64{"messages_on_wire_verified": 2000, "histories_order_checked": 100, "scenarios_with_interleaved_writers": 30, "pongs_written_while_writers_ran": 50, "close_landed_mid_message": 5, "reader_messages_verified": 1000}
@@ -393,7 +393,7 @@ func c05Run(r *fw.R, d c05Desc) {
 	var c *websocket.Conn
 	var peerEnd, libEnd *xport.End
 	var peerLib *websocket.Conn
-	ctx, cancel := context.WithTimeout(context.Background(), 100*time.Second)
+	ctx, cancel := context.WithTimeout(context.Background(), 300*time.Second)
 	defer cancel()
 	if d.Peer == "library" {
 		var cl, sv *websocket.Conn
@@ -824,18 +824,53 @@ func c05Run(r *fw.R, d c05Desc) {
 	go func() { wgW.Wait(); close(wdone) }()
 	finished := false
 	// writers and pingers end by themselves (all messages written, or an error once the connection closes)
-	select {
-	case <-wdone:
-	case <-time.After(60 * time.Second):
-		r.Violate("C05/writers-stuck/"+d.Closer, fmt.Sprintf("%s: writers had not finished 60 s into the scenario", c05What(d)), "")
+	// "stuck" means no progress, not "slow": after 60 s the scenario goes on for as long as bytes still reach the
+	// wire (a race build on an oversubscribed machine can take minutes), and is called stuck when nothing has been
+	// emitted for 30 s
+	{
+		t0 := time.Now()
+		last, lastChange := libEnd.SentLen(), time.Now()
+	waitWriters:
+		for {
+			select {
+			case <-wdone:
+				break waitWriters
+			case <-time.After(2 * time.Second):
+			}
+			if n := libEnd.SentLen(); n != last {
+				last, lastChange = n, time.Now()
+			}
+			if time.Since(t0) > 60*time.Second && time.Since(lastChange) > 30*time.Second {
+				r.Violate("C05/writers-stuck/"+d.Closer, fmt.Sprintf("%s: writers had not finished %v into the scenario and nothing has reached the wire for %v", c05What(d), time.Since(t0).Round(time.Second), time.Since(lastChange).Round(time.Second)), "")
+				c.CloseNow()
+				peerEnd.Close()
+				return
+			}
+			if time.Since(t0) > 400*time.Second {
+				r.Inconclusivef("%s: writers still making progress after 400 s (very slow machine)", c05What(d))
+				c.CloseNow()
+				peerEnd.Close()
+				return
+			}
+		}
+	}
+	if ctx.Err() != nil {
+		// the scenario's own 300 s budget ran out (very slow machine): the library then closes the connection under
+		// whatever was being written, as documented - nothing to judge
+		r.Inconclusivef("%s: the scenario's time budget ran out before the writers had finished", c05What(d))
 		c.CloseNow()
 		peerEnd.Close()
 		return
 	}
+	var finalCloseErr atomic.Value
 	if d.Closer == "none" {
 		peerSendWG.Wait() // the peer has sent everything it is going to send
 		time.Sleep(5 * time.Millisecond)
-		go c.Close(websocket.StatusNormalClosure, "end")
+		go func() {
+			if err := c.Close(websocket.StatusNormalClosure, "end"); err != nil {
+				finalCloseErr.Store(err.Error())
+			}
+		}()
 	}
 	select {
 	case <-done:
@@ -885,7 +920,11 @@ func c05Run(r *fw.R, d c05Desc) {
 		_ = v // C16's subject
 	}
 	r.Count("waiters_that_gave_up_on_the_frame_lock", impatientGaveUp.Load())
-	if d.Closer == "none" && d.Impatient == 0 && d.ImpatientWriters == 0 {
+	if fe, _ := finalCloseErr.Load().(string); fe != "" && d.Closer == "none" && (len(conf.Pending()) > 0 || conf.InMessage()) {
+		// the final Close itself gave up (its 5 s + 5 s ran out on a slow machine) and closed the transport under
+		// whatever was still being written (a Pong, say): a cut tail is then the local side's doing
+		r.Count("final_closes_that_timed_out_not_judged", 1)
+	} else if d.Closer == "none" && d.Impatient == 0 && d.ImpatientWriters == 0 {
 		if len(conf.Pending()) > 0 {
 			r.Violate("C05/truncated-frame", fmt.Sprintf("%s: the emitted stream ends inside a frame (%d pending bytes, %x) although nothing closed the connection before the final Close; frames: %s; readErr=%v", what, len(conf.Pending()), conf.Pending()[:min(12, len(conf.Pending()))], tail(string(conf.FrameLog), 60), readErr), "")
 		}
